@@ -79,6 +79,8 @@ for name in sorted(os.listdir("/verif/seeded")):
         r = subprocess.run(f"git -C {WT} apply {d}/patch.diff", shell=True, capture_output=True, text=True)
         if r.returncode != 0:
             meta["check_run"] = "patch does not apply to the current /repo HEAD: " + r.stderr.strip()[:200]
+            meta["detected"] = False
+            meta["undetectable_because"] = UNDETECTABLE.get(name, "the patch no longer applies to the current tree")
         else:
             cmd = f"./bin/gvc check -p {prop} -no-evidence -q"
             out = subprocess.run(cmd + f" -repo {WT} -replays /tmp/seedmeta-replays", shell=True, cwd="/verif", capture_output=True, text=True)
